@@ -7,7 +7,10 @@ use embedded_cli::command::RawCommand;
 use embedded_cli::service::{Autocomplete, CommandProcessor, Help, ParseError, ProcessError};
 use std::marker::PhantomData;
 
-pub const PROMPTS: [&str; 6] = ["$ ", "", "#", "###> ", "λ→ ", "é€𐍈 "];
+/// the first `SMALL_PROMPTS` are used everywhere; the two long ones (262 scalar values each, 262 / 655 bytes) only by the
+/// large-buffer sessions (lengths, columns and offsets beyond 255)
+pub const SMALL_PROMPTS: usize = 6;
+pub const PROMPTS: [&str; 8] = ["$ ", "", "#", "###> ", "λ→ ", "é€𐍈 ", "01234567890123456789012345678901234567890123456789012345678901234567890123456789012345678901234567890123456789012345678901234567890123456789012345678901234567890123456789012345678901234567890123456789012345678901234567890123456789012345678901234567890123456789> ", "é€é€é€é€é€é€é€é€é€é€é€é€é€é€é€é€é€é€é€é€é€é€é€é€é€é€é€é€é€é€é€é€é€é€é€é€é€é€é€é€é€é€é€é€é€é€é€é€é€é€é€é€é€é€é€é€é€é€é€é€é€é€é€é€é€é€é€é€é€é€é€é€é€é€é€é€é€é€é€é€é€é€é€é€é€é€é€é€é€é€é€é€é€é€é€é€é€é€é€é€é€é€é€é€é€é€é€é€é€é€é€é€é€é€é€é€é€é€é€é€é€é€é€é€é€é€é€é€é€é€𐍈 "];
 
 #[derive(Clone, Debug, PartialEq, Eq)]
 pub enum RecArg {
